@@ -224,7 +224,7 @@ Fixpoint run_q (q : qrw) (p : qprog) {struct p} : M unit :=
                     r_finished := false |} in
         r2 <- attempt (match cols with [] => ret tt | _ => send_all (column_definitions_msgs cols) end) ;;
         match r2 with
-        | inr e => lapi (Some e) ;;; drop_rw w ;;; fail e
+        | inr e => drop_rw w ;;; lapi (Some e) ;;; fail e   (* dropped inside RowWriter::new *)
         | inl _ => lapi None ;;; run_r w k
         end
       end
@@ -271,7 +271,7 @@ with run_r (w : rw) (p : rprog) {struct p} : M unit :=
   | RFinish =>
       x <- finish_inner w true ;;
       match x with
-      | (w', Some err) => lapi (Some err) ;;; drop_q (r_q w') ;;; fail err
+      | (w', Some err) => drop_q (r_q w') ;;; lapi (Some err) ;;; fail err   (* self dropped inside the call *)
       | (w', None) =>
           r2 <- attempt (finalize (r_q w') false) ;;
           match r2 with
@@ -282,13 +282,13 @@ with run_r (w : rw) (p : rprog) {struct p} : M unit :=
   | RFinishOne k =>
       x <- finish_inner w true ;;
       match x with
-      | (w', Some err) => lapi (Some err) ;;; drop_q (r_q w') ;;; fail err
+      | (w', Some err) => drop_q (r_q w') ;;; lapi (Some err) ;;; fail err   (* self dropped inside the call *)
       | (w', None) => lapi None ;;; run_q (r_q w') k
       end
   | RFinishError code msg =>
       x <- finish_inner w false ;;
       match x with
-      | (w', Some err) => lapi (Some err) ;;; drop_q (r_q w') ;;; fail err
+      | (w', Some err) => drop_q (r_q w') ;;; lapi (Some err) ;;; fail err   (* self dropped inside the call *)
       | (w', None) =>
           r2 <- attempt (finalize (r_q w') true ;;; write_err code msg) ;;
           match r2 with
